@@ -14,7 +14,7 @@ import (
 
 // C08 — accepted lines are recorded in history exactly once.
 
-const c08Rule = "1-3 bound history sources (library in-memory, library file-backed, a recording Source of the harness that logs every Write) each with prior contents from a pool (empty, one entry, several, most recent entry equal to the line, equal up to whitespace) x history-size in {unset, 0, 1, 2, |prior|, |prior|+1, 500} set through the inputrc NewShell loads x typed line in {blank, spaces only, text, text with leading/trailing blanks, multi-line through AcceptMultiline, multi-byte} x accept variant in {accept-line, accept-and-hold + second call, operate-and-get-next, accept-and-infer-next-history, interrupt C-c, end-of-file on an empty line, C-d on a non-empty line then accept}; oracle = list model per source on Len()/GetLine() before and after: error -> every source unchanged; replay-type accepts -> unchanged; otherwise per source independently: blank -> unchanged, equal (trimmed) to that source's last entry -> unchanged, positive limit reached -> unchanged, else exactly one new last entry equal to the line up to surrounding whitespace and nothing else changed; the recording source also bounds the number of Write calls; history-size 0 may mean unset or record-nothing but the same for all sources; non-trivial = non-blank line with >= 2 sources, or a configured limit, or a duplicate of a last entry, or a non-plain accept variant; distinct = hash of the case"
+const c08Rule = "1-3 bound history sources (library in-memory, library file-backed, a recording Source of the harness that logs every Write) each with prior contents from a pool (empty, one entry, several, most recent entry equal to the line, equal up to whitespace, 499-1024 entries) x history-size in {unset, 0, 1, 2, |prior|, |prior|+1, 500} set through the inputrc NewShell loads x typed line in {blank, spaces only, text, text with leading/trailing blanks, multi-line through AcceptMultiline, multi-byte} x accept variant in {accept-line, accept-and-hold + second call, operate-and-get-next, accept-and-infer-next-history, interrupt C-c, end-of-file on an empty line, C-d on a non-empty line then accept}; oracle = list model per source on Len()/GetLine() before and after: error -> every source unchanged; replay-type accepts -> unchanged; otherwise per source independently: blank -> unchanged, equal (trimmed) to that source's last entry -> unchanged, positive limit reached -> unchanged, else exactly one new last entry equal to the line up to surrounding whitespace and nothing else changed; the recording source also bounds the number of Write calls; history-size 0 may mean unset or record-nothing but the same for all sources; non-trivial = non-blank line with >= 2 sources, or a configured limit, or a duplicate of a last entry, or a non-plain accept variant; distinct = hash of the case"
 
 type C08Case struct {
 	Mode    string   `json:"mode"`
@@ -41,8 +41,13 @@ func genC08(t *rapid.T) *C08Case {
 	for i := 0; i < ns; i++ {
 		s := C08Src{Kind: rapid.SampledFrom([]string{"mem", "file", "rec"}).Draw(t, "kind")}
 
-		switch rapid.IntRange(0, 5).Draw(t, "prior") {
+		switch rapid.IntRange(0, 6).Draw(t, "prior") {
 		case 0:
+		case 6: // a long history: more entries than any default limit a library might assume
+			n := rapid.SampledFrom([]int{499, 500, 501, 1000, 1024}).Draw(t, "nprior")
+			for j := 0; j < n; j++ {
+				s.Prior = append(s.Prior, fmt.Sprintf("entry %d", j))
+			}
 		case 1:
 			s.Prior = []string{"a"}
 		case 2:
